@@ -28,7 +28,7 @@ RULE = ("scenarios = channel (4 writer-lock kinds x 3 reader modes x requested c
 TRUSTED_BASE = [
     "modelled, not verified: sequentially consistent interleaving of atomic operations plus release/acquire views for the plain data (message slots, harness payloads) as stand-in for C11 (DRF-SC assumed, not proved); the view model orders write -> read only (the relaxed load of read_cursor before a slot is reused leaves the previous lap's read and the new write formally unordered: reported as an observation); futex = atomic compare-and-block/wake, pthread mutex = exclusive ownership with acquire/release, condvar = Mesa with spurious wake-ups, as interposed by harness/vsched; real weak-memory reorderings cannot be exhibited on x86 under a serialised run",
     "memory orders of the 13 atomic sites (9 in channel.c, 2 in spinlock.c, 2 in synclock.c) are re-extracted from the executed code into coq/gen/Params_C01.v on every run and the theorems' side condition (chan_mo_ok / lock_mo_ok) is discharged against them",
-    "the 12-way function-pointer dispatch of muggle_channel_init and muggle_next_pow_of_2 (property C20) are covered by trace acceptance only",
+    "muggle_channel_init (flag -> function-pointer dispatch, created mutexes / condvar, capacity rounding incl. muggle_next_pow_of_2 as used there) is re-extracted by RUNNING it for every flags value in [0, 512) and every requested capacity in [0, 1025] (harness/drivers/c01_dispatch.c + nm for the static functions' names) into coq/gen/Params_C01.v and proved equal to the model's mode table; trusted: the probe program, nm, and that the function a name denotes is the one the model transcribes (checked by trace acceptance for the 12 valid modes)",
 ]
 ASSUMPTIONS = ["channel: exactly one reader thread; MUGGLE_CHANNEL_FLAG_WRITE_SINGLE => exactly one writer thread (documented usage)",
                "double buffer: one reader thread; array blocking queue: any number of producers and consumers"]
@@ -38,6 +38,8 @@ EVIDENCE_NOTES = [
     "array blocking queue and double buffer carry views as well (mutex stamp, slot and payload versions, ghost uncovered-read counters): abq_payload_visible, dbuf_payload_visible (no uncovered plain read; the item / batch entry about to be consumed was put / written and its payload write is in the consumer's view) and dbuf_full_only_if_full (a write is refused or put to sleep only when the back buffer holds capacity items, the reader sleeps only when it is empty; ghost check computed from the histories) are theorems for every schedule, any number of threads, any capacity",
     "model-guided schedules (DESIGN.md 4.3): the guide mode of ocaml/c01_driver.ml explores the extracted channel model with biased random walks and emits the walks that reach the proofs' case-split windows (w1 reader commits read_cursor between a writer's cursor load and its full check / slot store; w2 reader loads write_cursor between slot store and publication; w3 cached read cursor refreshed in busy mode; w4 publication wraps write_cursor to 0 leaving capacity-2 unread; w5 a writer publishes between the reader's check and its futex sleep) as 'sched list' schedules; the generator adds them in both tiers and the tally reports, from the IMPLEMENTATION traces, how many guided schedules went through each window (guided_window_w1..w5, guided_target_hit) next to the counts over all schedules (window_w1..w5)",
     "futex waits: the model's fwait steps (reader on write_cursor, writers on the synclock) have the choices 'interrupted' (EINTR, trace c = 2) and 'spurious wake-up' (c = 3) besides sleeping; all theorems quantify over them; the acceptor maps c = 2 / 3 to these choices; two thirds of the sync-reader / synclock-writer scenarios use them and two list-schedule corpus cases force them on the first would-block waits",
+    "muggle_channel_init is tied to the model by RE-EXTRACTION FROM THE EXECUTED CODE (the alternative to symbolic evaluation of the AST): harness/drivers/c01_dispatch.c, compiled from the working tree on every run, runs muggle_channel_init for every flags value in [0, 512) and for the requested capacities 0..1025 (+ requests that do not fit muggle_sync_t) and calls muggle_next_pow_of_2 around every power of two; the installed fn_lock / fn_unlock / fn_write / fn_wake / fn_read are resolved to the static functions' names with nm; the tables go into coq/gen/Params_C01.v; chan_dispatch_matches_model (complete sweep over the 512 flag values by vm_compute: return value, normalised flags, init_flags, created mutexes / condvar, five functions = the model's mode table flag_wk / flag_rm), chan_capacity_matches_model (refusals, capacity, initial cursors = model's initial state) and chan_capacity_rounding (for ALL requests: round_cap is the least power of two >= the request) are obligations; a behaviour-preserving restructuring of init (helpers, if-chains) leaves the tables unchanged",
+    "coverage: the random, the model-guided and the corpus scenario families each cover all 12 modes x requested capacities {1, 2, 3, 4, 8} in the quick tier (input_distribution: modes_x_caps_covered_<family>_of_60 = 60)",
     "not theorems: freedom from lost wake-ups (property C03) is covered by the monitor and trace acceptance only",
     "chan_mo_necessary (coq/C01/ProofsView.v): with the store of write_cursor relaxed the model delivers the slot's previous content (NULL) under a concrete schedule, with the code's orders the same schedule delivers the message",
     "spurious condvar wake-ups (scheduler line 'W <tid> cvspur') are a model transition; ocaml/c01_driver.ml therefore carries its own copy of the shared acceptor (accept_trace_w) that replays W lines instead of echoing them; ocaml/vsacc.ml.inc is unchanged",
@@ -114,6 +116,82 @@ def observed_params(ctx):
     return seen
 
 
+PROBE_C = "harness/drivers/c01_dispatch.c"
+PROBE_SOURCES = ["muggle/c/sync/channel.c", "muggle/c/sync/synclock.c", "muggle/c/sync/spinlock.c", "muggle/c/sync/mutex.c",
+                 "muggle/c/sync/condition_variable.c", "muggle/c/sync/sync_obj_futex.c", "muggle/c/base/thread.c",
+                 "muggle/c/base/utils.c"]
+_WK = {"mutex": "WMutex", "sync": "WSync", "spin": "WSpin", "single": "WSingle"}
+_RM = {"sync": "RSync", "mutex": "RMutex", "busy": "RBusy"}
+
+
+def _fn_term(slot, name):
+    """Coq term for the function installed in a slot, from the static function's name
+    (muggle_channel_write_<lock>_lock / _unlock, muggle_channel_write_<mode> / wake_<mode> / read_<mode>)."""
+    if not name:
+        return "FUnknown"
+    m = re.match(r"muggle_channel_write_(mutex|sync|spin|single)(?:lock)?_(lock|unlock)$", name)
+    if m:
+        return "(%s %s)" % ("FLock" if m.group(2) == "lock" else "FUnlock", _WK[m.group(1)])
+    m = re.match(r"muggle_channel_(write|wake|read)_(sync|mutex|busy)$", name)
+    if m:
+        return "(%s %s)" % ({"write": "FWrite", "wake": "FWake", "read": "FRead"}[m.group(1)], _RM[m.group(2)])
+    return "FUnknown"
+
+
+def dispatch_tables(ctx):
+    """Runs muggle_channel_init (as compiled from the working tree) for every flags value and for
+    the requested capacities; returns (coq text of the three tables, notes)."""
+    notes = []
+    try:
+        exe = V.build_driver(ID, PROBE_C, PROBE_SOURCES, "dispatch_probe", san=False)
+        rc, out, err = V.sh([exe], timeout=120)
+        rc2, nmout, _ = V.sh(["nm", exe], timeout=60)
+    except Exception as e:       # an unbuildable probe is a failed obligation, not a default
+        return ("Definition code_dispatch_table : list dispatch_row := [].\n"
+                "Definition code_capacity_table : list (Z * Z * Z * Z * Z * Z) := [].\n"
+                "Definition code_pow2_table : list (Z * Z) := [].\n",
+                ["(* dispatch probe could not be built or run: %s *)" % str(e)[:200].replace("*)", "* )")])
+    addr, byaddr = {}, {}
+    for ln in nmout.split("\n"):
+        w = ln.split()
+        if len(w) == 3 and w[1] in "tT":
+            addr[w[2]] = int(w[0], 16)
+            byaddr.setdefault(int(w[0], 16), []).append(w[2])
+    base = addr.get("muggle_channel_init")
+
+    def name_of(off):
+        if base is None or off == 0:
+            return None
+        names = [n for n in byaddr.get(base + off, []) if n.startswith("muggle_channel_")]
+        return names[0] if len(names) == 1 else None
+    drows, crows, nrows = [], [], []
+    for ln in out.split("\n"):
+        w = ln.split()
+        if not w:
+            continue
+        if w[0] == "D" and len(w) == 14:
+            f = [int(x) for x in w[1:]]
+            fns = [_fn_term(i, name_of(o)) for i, o in enumerate(f[7:12])]
+            drows.append("(%d, %d, %d, %d, (%s, %s, %s), (%s), %d)" % (
+                f[0], f[1], f[2], f[3], *["true" if b else "false" for b in f[4:7]], ", ".join(fns), f[12]))
+        elif w[0] == "C" and len(w) == 7:
+            crows.append("(%s)" % ", ".join(w[1:]))
+        elif w[0] == "N" and len(w) == 3:
+            nrows.append("(%s, %s)" % (w[1], w[2]))
+    if rc != 0 or len(drows) != 512:
+        notes.append("(* dispatch probe: exit %d, %d of 512 flag rows *)" % (rc, len(drows)))
+
+    def lst(rows, per=4):
+        return "[" + ";\n   ".join("; ".join(rows[i:i + per]) for i in range(0, len(rows), per)) + "]"
+    txt = ("(* muggle_channel_init run for every flags value in [0, 512) with requested capacity 4 *)\n"
+           "Definition code_dispatch_table : list dispatch_row :=\n  " + lst(drows, 2) + ".\n"
+           "(* (requested capacity, return value, capacity, write_cursor, read_cursor, cached_r_cur) *)\n"
+           "Definition code_capacity_table : list (Z * Z * Z * Z * Z * Z) :=\n  " + lst(crows, 6) + ".\n"
+           "(* (x, (muggle_sync_t)muggle_next_pow_of_2(x)) around every power of two *)\n"
+           "Definition code_pow2_table : list (Z * Z) :=\n  " + lst(nrows, 8) + ".\n")
+    return txt, notes
+
+
 def gen_params(ctx):
     seen = observed_params(ctx)
     fields, notes = [], []
@@ -125,10 +203,13 @@ def gen_params(ctx):
             fields.append("%s := MoNone" % f)
         else:
             fields.append("%s := %s" % (f, MO.get(next(iter(mos)), "MoNone")))
+    tables, tnotes = dispatch_tables(ctx)
+    notes += tnotes
     return ("(* generated by lib/props/c01.py from the memory orders observed at each atomic site of\n"
-            "   channel.c / spinlock.c / synclock.c on this run; do not edit *)\n"
-            "From MV Require Import C01.Model.\n" + "\n".join(notes) + ("\n" if notes else "") +
-            "Definition code_params : params :=\n  {| " + ";\n     ".join(fields) + " |}.\n")
+            "   channel.c / spinlock.c / synclock.c on this run, and from muggle_channel_init run for every\n"
+            "   flags value and requested capacity (harness/drivers/c01_dispatch.c); do not edit *)\n"
+            "From MV Require Import C01.Model C01.Dispatch.\nLocal Open Scope Z_scope.\n" + "\n".join(notes) + ("\n" if notes else "") +
+            "Definition code_params : params :=\n  {| " + ";\n     ".join(fields) + " |}.\n" + tables)
 
 
 # ---------------------------------------------------------------------------
@@ -172,6 +253,13 @@ def corpus_cases(ctx):
     out.append(_chan("corpus-futex-eintr", "spin", "sync", 4, [2], "list f0,w1 " + " ".join(["0"] * 12 + ["1"] * 30 + ["0"] * 20)))
     out.append(_chan("corpus-futex-eintr-synclock", "sync", "sync", 4, [2, 2],
                      "list f0,f1,w2 " + " ".join(["0"] * 8 + ["1"] * 4 + ["2"] * 8 + ["1"] * 20 + ["2"] * 20 + ["0"] * 20)))
+    # every mode x requested capacity in COVER_CAPS once with a fixed schedule seed
+    for wk in WKINDS:
+        for rm in RMODES:
+            for cap in COVER_CAPS:
+                ks = [2] if wk == "single" else [2, 1]
+                out.append(_chan("corpus-grid-%s-%s-%d" % (wk, rm, cap), wk, rm, cap, ks,
+                                 "rand %d 60 0 0" % (1000 + 100 * WKINDS.index(wk) + 10 * RMODES.index(rm) + cap)))
     # permanently full rings
     for cap in (1, 2):
         for rm in RMODES:
@@ -235,6 +323,10 @@ def generate(rng, tier):
     return cases
 
 
+COVER_CAPS = (1, 2, 3, 4, 8)
+_COVER = {}
+
+
 WINDOWS = {
     "w1": "reader commits read_cursor while a writer is between its load of read_cursor and its full check / slot store",
     "w2": "reader loads write_cursor while a writer is between its slot store and the publication",
@@ -251,22 +343,34 @@ def _guided_cases(rng, tier):
     exe = os.path.join(V.BUILD, ID, "model_driver")
     if not os.path.exists(exe):
         return []
-    reps = 1 if tier == "quick" else 8
+    reps = 1 if tier == "quick" else 6
     reqs = []
     n = 0
     for wk in WKINDS:
         for rm in RMODES:
-            targets = {"sync": ["w1", "w2", "w4", "w5"], "busy": ["w1", "w2", "w3", "w4"], "mutex": ["w4"]}[rm]
-            for target in targets:
-                for rep in range(reps):
-                    cap = rng.choice([3, 5]) if target != "w4" else 3
-                    nw = 1 if wk == "single" else rng.range(2, 3)
-                    c2 = next_pow2(cap)
-                    per = (c2 + 1 + nw - 1) // nw      # enough messages to wrap the ring and to refresh the cached cursor
-                    ks = [rng.range(per, per + 1) for _ in range(nw)]
-                    scen = "chan %s %s %d %d %s" % (wk, rm, cap, sum(ks), " ".join(map(str, ks)))
-                    reqs.append((V.Case("guide-%d" % n, [scen, "guide %d %s 400" % (rng.below(1 << 30), target)]), scen, target, wk, rm))
-                    n += 1
+            all_targets = {"sync": ["w1", "w2", "w4", "w5"], "busy": ["w1", "w2", "w3", "w4"], "mutex": ["w4"]}[rm]
+            # every mode x requested capacity in COVER_CAPS; capacities 1 and 2 (permanently full) have no window
+            for cap in COVER_CAPS:
+                c2 = next_pow2(cap)
+                if c2 <= 2:
+                    targets = ["any"]
+                elif cap == 3 or tier != "quick":
+                    targets = all_targets
+                else:
+                    targets = ["any"]
+                for target in targets:
+                    for rep in range(reps if target != "any" else 1):
+                        nw = 1 if wk == "single" else rng.range(2, 3)
+                        if c2 <= 2:
+                            ks = [rng.range(1, 2) for _ in range(nw)]
+                        else:
+                            per = (c2 + 1 + nw - 1) // nw  # enough messages to wrap the ring and to refresh the cached cursor
+                            ks = [rng.range(per, per + 1) for _ in range(nw)]
+                        base = _chan("x", wk, rm, cap, ks, "rand 1 50 0 0")
+                        head = [ln for ln in base.lines if not ln.startswith("sched ")]
+                        reqs.append((V.Case("guide-%d" % n, head + ["guide %d %s %d" % (rng.below(1 << 30), target, 400 if target != "any" else 30)]),
+                                     head, target, wk, rm))
+                        n += 1
     res = V.run_batch(exe, [r[0] for r in reqs], per_case_timeout=10.0)
     out = []
     for c, scen, target, wk, rm in reqs:
@@ -277,8 +381,8 @@ def _guided_cases(rng, tier):
         hits = [ln for ln in r["lines"] if ln.startswith("hits")]
         if not sched or len(sched[0]) > 3900:
             continue
-        out.append(V.Case("guided-%s-%s-%s-%s" % (target, wk, rm, c.name[6:]), [scen, sched[0]],
-                          {"scen": scen, "target": target, "model_hits": hits[0].split()[1:] if hits else []}))
+        out.append(V.Case("guided-%s-%s-%s-%s" % (target, wk, rm, c.name[6:]), list(scen) + [sched[0]],
+                          {"scen": scen[0], "target": target, "model_hits": hits[0].split()[1:] if hits else []}))
     return out
 
 
@@ -792,6 +896,14 @@ def nontrivial_key(case, lines):
 def tally(dist, case, lines):
     scen = case.lines[0].split()
     if scen[0] == "chan":
+        fam = "guided" if case.name.startswith("guided-") else "corpus" if case.name.startswith("corpus-") else "random"
+        if int(scen[3]) in COVER_CAPS:
+            # coverage of the 12 modes x requested capacities {1, 2, 3, 4, 8} per scenario family (60 = complete)
+            if dist.get("evaluated_chan", 0) == 0:
+                _COVER.clear()
+            _COVER.setdefault(fam, set()).add((scen[1], scen[2], int(scen[3])))
+            dist["modes_x_caps_covered_%s_of_60" % fam] = len(_COVER[fam])
+        dist["evaluated_chan"] = dist.get("evaluated_chan", 0) + 1
         guided = case.name.startswith("guided-")
         if guided:
             dist["guided_schedules"] = dist.get("guided_schedules", 0) + 1
@@ -799,6 +911,8 @@ def tally(dist, case, lines):
             dist["window_%s" % wn] = dist.get("window_%s" % wn, 0) + 1
             if guided:
                 dist["guided_window_%s" % wn] = dist.get("guided_window_%s" % wn, 0) + 1
+        if guided and case.meta.get("target") in WINDOWS:
+            dist["guided_targeted"] = dist.get("guided_targeted", 0) + 1
         if guided and case.meta.get("target") in windows_of_trace(case, lines):
             dist["guided_target_hit"] = dist.get("guided_target_hit", 0) + 1
     k = scen[0] + ("-%s-%s" % (scen[1], scen[2]) if scen[0] == "chan" else "")
